@@ -65,6 +65,7 @@ const (
 )
 
 func newWorld() *world {
+	mapDesc = false // every execution starts with the mirror's maps iterated in ascending key order
 	w := &world{
 		keys:        tmconsensustest.DeterministicValidatorsEd25519(nKeysPool + 2),
 		hs:          tmconsensustest.SimpleHashScheme{},
